@@ -299,6 +299,130 @@ def rule_pair(P, C):
     return r
 
 
+def rule_pair_talk(P, C):
+    """the pair hands data over whenever it can: nothing else comes back for bytes waiting in a writer's output"""
+    r = Rule("C17-pair-talk", "K6", "pair: data waiting in an output is handed over when the writer adds it, when the reader starts reading and when the writer starts writing - iff both sides are willing", floor=40)
+    R, W = C["EV_READ"], C["EV_WRITE"]
+    # (1) be_pair_wants_to_talk: truth table
+    f = P.fn("be_pair_wants_to_talk")
+    srcn, dstn = f.params[0][0], f.params[1][0]
+    keys = {}
+    for x in [el.e for el in f.elems()] + [b.term["cond"] for b in f.branch_blocks()]:
+        for q in walk(x):
+            if is_e(q, "fld") and q[2] in ("bufferevent.enabled", "bufferevent_private.read_suspended"):
+                rv = root_var(q)
+                if rv is not None:
+                    keys[(rv[1], q[2])] = nkey(q)
+    need = [(srcn, "bufferevent.enabled"), (dstn, "bufferevent.enabled"), (dstn, "bufferevent_private.read_suspended")]
+    if any(k not in keys for k in need):
+        r.brk("be_pair_wants_to_talk: expected tests not found (%s)" % sorted(keys))
+        return r
+    for sen in (0, R, W, R | W):
+        for den in (0, R, W, R | W):
+            for susp in (0, 1, 4):
+                for outlen in (0, 9):
+                    env = {"#typed": 1, srcn: 1, dstn: 2, keys[need[0]]: sen, keys[need[1]]: den, keys[need[2]]: susp}
+                    vals = set()
+                    for o in run_all(f, (f.entry, 0), env, lambda el: False, P, lambda el, e_: (outlen if callee_name(el.e) == "evbuffer_get_length" else None), max_steps=200):
+                        if o.kind == "exit" and o.why == "noreturn":
+                            continue
+                        if o.kind != "ret":
+                            r.brk("be_pair_wants_to_talk: %s %s" % (o.kind, o.why))
+                            return r
+                        try:
+                            vals.add(bool(tevalx(normx(o.at.e[1]), o.env, P, f)))
+                        except EvalError as ex:
+                            r.brk("be_pair_wants_to_talk: %s" % ex)
+                            return r
+                    want = bool(sen & W) and bool(den & R) and not susp and outlen > 0
+                    r.inst(("wants", sen, den, susp, outlen), {"writer_enabled": sen, "reader_enabled": den, "reader_suspended": susp, "writer_output": outlen, "talks": sorted(vals)})
+                    if vals != {want}:
+                        r.bad("K6:be_pair_wants_to_talk:table", "%s:%d" % (f.file, f.line), f.name,
+                              "writer enabled %#x, reader enabled %#x, reader suspended %d, %d byte(s) waiting: answers %s; data is handed over iff the writer writes, the reader reads and is not suspended, and something waits" % (sen, den, susp, outlen, sorted(vals)))
+
+    def direction(e):
+        """which way a (src, dst) call goes: 'in' when the source is derived from the partner"""
+        return "in" if "partner" in show(e[2][0]) else "out"
+
+    # (2) be_pair_enable
+    g = P.fn("be_pair_enable")
+    pk = nkey(["fld", ["var", "bev_p", "local"], "bufferevent_pair.partner", "->"])
+    for events in (R, W, R | W):
+        for partner in (0, 5):
+            for w_in in (0, 1):
+                for w_out in (0, 1):
+                    env = {"#typed": 1, "event_debug_logging_mask_": 0, g.params[0][0]: 1, g.params[1][0]: events, pk: partner, "#ops": ()}
+
+                    def hook(el, e_):
+                        n = callee_name(el.e)
+                        if n == "be_pair_wants_to_talk":
+                            return w_in if direction(el.e) == "in" else w_out
+                        if n == "be_pair_transfer":
+                            try:
+                                ig = evalx(normx(el.e[2][2]), e_, P)
+                            except EvalError:
+                                ig = "?"
+                            e_["#ops"] = e_["#ops"] + ((direction(el.e), ig),)
+                            return 0
+                        if n == "evbuffer_get_length":
+                            return 3
+                        if n in ("event_add", "event_del", "bufferevent_add_event_", "bufferevent_generic_adj_timeouts_", "bufferevent_incref_and_lock_", "bufferevent_decref_and_unlock_", "event_pending"):
+                            return 0
+                        return None
+                    outs = [o for o in run_all(g, (g.entry, 0), env, lambda el: False, P, hook, max_steps=400) if not (o.kind == "exit" and o.why == "noreturn")]
+                    want = []
+                    if (events & R) and partner and w_in:
+                        want.append(("in", 0))
+                    if (events & W) and partner and w_out:
+                        want.append(("out", 0))
+                    for o in outs:
+                        if o.kind == "unknown":
+                            r.brk("be_pair_enable: %s" % o.why)
+                            return r
+                        ops = list(o.env["#ops"])
+                        r.inst(("enable", events, partner, w_in, w_out), {"events": events, "partner": bool(partner), "partner_to_me_willing": w_in, "me_to_partner_willing": w_out, "transfers": ops})
+                        if ops != want:
+                            r.bad("K6:be_pair_enable:handover", "%s:%d" % (g.file, g.line), g.name,
+                                  "enable %#x, partner %s, partner->me willing %d, me->partner willing %d: transfers %s; expected %s (bytes already waiting would otherwise stay where they are)" % (events, "linked" if partner else "gone", w_in, w_out, ops, want))
+    # (3) be_pair_outbuf_cb
+    h = P.fn("be_pair_outbuf_cb")
+    info = ["var", h.params[1][0], "param"]
+    pk2 = nkey(["fld", ["var", "bev_pair", "local"], "bufferevent_pair.partner", "->"])
+    for added, deleted in ((5, 0), (0, 5), (5, 5), (7, 2), (0, 0)):
+        for partner in (0, 5):
+            for wants in (0, 1):
+                env = {"#typed": 1, "event_debug_logging_mask_": 0, h.params[0][0]: 71, h.params[2][0]: 1, pk2: partner, "#ops": (),
+                       nkey(["fld", info, "evbuffer_cb_info.n_added", "->"]): added, nkey(["fld", info, "evbuffer_cb_info.n_deleted", "->"]): deleted}
+
+                def hook3(el, e_):
+                    n = callee_name(el.e)
+                    if n == "be_pair_wants_to_talk":
+                        return wants
+                    if n == "be_pair_transfer":
+                        e_["#ops"] = e_["#ops"] + ((direction(el.e),),)
+                        return 0
+                    if n in ("bufferevent_incref_and_lock_", "bufferevent_decref_and_unlock_"):
+                        return 0
+                    return None
+                outs = [o for o in run_all(h, (h.entry, 0), env, lambda el: False, P, hook3, max_steps=300) if not (o.kind == "exit" and o.why == "noreturn")]
+                want = [("out",)] if (added > deleted and partner and wants) else []
+                for o in outs:
+                    if o.kind == "unknown":
+                        r.brk("be_pair_outbuf_cb: %s" % o.why)
+                        return r
+                    ops = list(o.env["#ops"])
+                    r.inst(("outbuf", added, deleted, partner, wants), {"added": added, "deleted": deleted, "partner": bool(partner), "willing": wants, "transfers": ops})
+                    if ops != want:
+                        r.bad("K6:be_pair_outbuf_cb:handover", "%s:%d" % (h.file, h.line), h.name, "output grew by %d and shrank by %d, partner %s, willing %d: transfers %s; expected %s" % (added, deleted, "linked" if partner else "gone", wants, ops, want))
+    seen, uniq = set(), []
+    for f_ in r.findings:
+        if f_.key not in seen:
+            seen.add(f_.key)
+            uniq.append(f_)
+    r.findings = uniq
+    return r
+
+
 def rule_filter(P, C):
     """be_filter_read_nolock_: nobody else comes back for data left in the underlying input buffer; be_filter_eventcb: pending input goes through the filter before the end is announced"""
     r = Rule("C17-filter", "K6", "filter: data left in the underlying input is either processed or waited for (inbuf callback armed on a full buffer); EOF/read error is forwarded once, after the pending input went through the filter in FINISHED mode", floor=16)
@@ -725,7 +849,7 @@ def run(ctx, config):
         rr.brk("constants not found: %s" % [n for n in need if n not in C])
         return [rr]
     rules = []
-    for mk in (lambda: sock_rule(P, C, "bufferevent_readcb", "read"), lambda: sock_rule(P, C, "bufferevent_writecb", "write"), lambda: rule_pair(P, C), lambda: rule_filter(P, C), lambda: rule_tls(P, C), lambda: rule_runners(P), lambda: rule_movers(P)):
+    for mk in (lambda: sock_rule(P, C, "bufferevent_readcb", "read"), lambda: sock_rule(P, C, "bufferevent_writecb", "write"), lambda: rule_pair(P, C), lambda: rule_pair_talk(P, C), lambda: rule_filter(P, C), lambda: rule_tls(P, C), lambda: rule_runners(P), lambda: rule_movers(P)):
         try:
             rules.append(mk())
         except AnalysisBroken as ex:
